@@ -181,6 +181,23 @@ fn check<C: Cm>(case: &Case) -> PResult {
             check_symbols(&sy, &f4, &codes[..cut], &format!("collect_take_while/{n}"))?;
             let f5: Seq<C> = syms.chunks(3).flat_map(|c| c.iter().copied()).collect();
             check_symbols(&sy, &f5, codes, &format!("collect_flat_map/{n}"))?;
+            // iterators whose size_hint lower bound is positive but below what they yield
+            let half = syms.len() / 2;
+            let mut want: Vec<u8> = codes[..half].to_vec();
+            want.extend(codes[half..].iter().copied().filter(|c| *c != drop));
+            let f6: Seq<C> = syms[..half].iter().copied().chain(syms[half..].iter().copied().filter(|s| s.to_bits() != drop)).collect();
+            check_symbols(&sy, &f6, &want, &format!("collect_chain_exact_filter/{n}"))?;
+            let mut want: Vec<u8> = codes[..half].iter().copied().filter(|c| *c != drop).collect();
+            want.extend_from_slice(&codes[half..]);
+            let f7: Seq<C> = syms[..half].iter().copied().filter(|s| s.to_bits() != drop).chain(syms[half..].iter().copied()).collect();
+            check_symbols(&sy, &f7, &want, &format!("collect_chain_filter_exact/{n}"))?;
+            let mut pk = syms.iter().copied().filter(|s| s.to_bits() != drop).peekable();
+            let _ = pk.peek();
+            let f8: Seq<C> = pk.collect();
+            check_symbols(&sy, &f8, &kept, &format!("collect_peeked_filter/{n}"))?;
+            let mut k = 0usize;
+            let f9: Seq<C> = std::iter::successors(syms.first().copied(), |_| { k += 1; syms.get(k).copied() }).collect();
+            check_symbols(&sy, &f9, codes, &format!("collect_successors/{n}"))?;
             let mut e3 = Seq::<C>::new();
             e3.extend(syms.iter().copied().filter(|s| s.to_bits() != drop));
             e3.extend(syms.iter().copied().filter(|s| s.to_bits() == drop));
